@@ -10,6 +10,6 @@ import (
 func init() {
 	c20.RedisCfgFault = redisCfgFault
 	registry["C20"] = entry{run: c20.Run, replay: func(r *monitor.Run, d json.RawMessage) { c20.Replay(r, d) }, level: "exploration",
-		rule: "cases = seeded scenarios: 2-5 persistent v3.1.1/v5 clients exchange random SUBSCRIBE/UNSUBSCRIBE/PUBLISH QoS0-2/PINGREQ traffic, dedicated victims produce exactly known drops (queue full while offline, oversize for the client's Maximum Packet Size, expiry in the queue) and known queued/in-flight gauges, then connection churn (DISCONNECT, reconnect, take-over, TerminateSession, clean start over an offline session) and more traffic; at a logically reached quiescent point (PINGREQ barriers + two identical snapshots) every per-client and global packet/byte/message/drop counter is compared with the wire log of the scripted clients, gauges with the known queue contents, connection counters with the scenario's ground truth, globals with the sum of per-client values; a poller samples the gauges every 100 us for wrap below zero. Every scenario is non-trivial; distinct by seed/parameters. Plus: sessions restored from redis at start-up (drops for them are counted; session gauges right after the restart and session and queue gauges after the resume), directed session-gauge scenarios (expired unswept session replaced, session with queued messages ended, session ended while redis refuses a command).",
+		rule: "cases = seeded scenarios: 2-5 persistent v3.1.1/v5 clients exchange random SUBSCRIBE/UNSUBSCRIBE/PUBLISH QoS0-2/PINGREQ traffic, dedicated victims produce exactly known drops (queue full while offline, oversize for the client's Maximum Packet Size, expiry in the queue) and known queued/in-flight gauges, then connection churn (DISCONNECT, reconnect, take-over, TerminateSession, clean start over an offline session) and more traffic; at a logically reached quiescent point (PINGREQ barriers + two identical snapshots) every per-client and global packet/byte/message/drop counter is compared with the wire log of the scripted clients, gauges with the known queue contents, connection counters with the scenario's ground truth, globals with the sum of per-client values; a poller samples the gauges every 100 us for wrap below zero. Every scenario is non-trivial; distinct by seed/parameters. Plus: sessions restored from redis at start-up (drops for them are counted; session gauges right after the restart and session and queue gauges after the resume), directed session-gauge scenarios (expired unswept session replaced, session with queued messages ended, session ended while redis refuses a command). One publish in ten has a remaining length on or next to a boundary of the variable byte integer (127/128, 16383/16384/16385, +-3).",
 		assumptions: []string{"mqttx sizes = bytes on the wire", "displaced (taken-over) connections may have been sent packets they never read: 'sent' counters compared with >= for them", "per-client statistics restart when the session is terminated (epoch)"}}
 }
